@@ -51,6 +51,8 @@ def cases(rng, tier):
     for _ in range(n):
         users = rng.sample(USERS, rng.randint(1, 3))
         logins = [[rng.choice(users), rng.choice(list(CL))] for _ in range(rng.randint(3, 8))]
+        # a third element marks a login that presents the session cookie of the previous login of the same user at the same client (SSO)
+        logins = [l + ([True] if l in logins[:i] and rng.random() < 0.6 else []) for i, l in enumerate(logins)]
         out.append({"t": "seq", "logins": logins})
     return out
 
@@ -66,12 +68,16 @@ def impl(c):
     az, tk, ui, it = (s.get_endpoint(x) for x in ("authorization", "token", "userinfo", "introspection"))
     salt = ctx.session_manager.get_salt()
     res = []
-    for user, cid in c["logins"]:
+    cookies = {}
+    for n, (user, cid, *sso) in enumerate(c["logins"]):
         ctx.authn_broker.db["anon"]["method"].user = user
         red = f"https://{cid.lower()}.example.com/cb"
-        req = AuthorizationRequest(client_id=cid, redirect_uri=red, scope=["openid", "email"], state="st", response_type="code", nonce="n")
+        req = AuthorizationRequest(client_id=cid, redirect_uri=red, scope=["openid", "email"], state=f"st{n}", response_type="code", nonce=f"n{n}")
         try:
-            out = az.process_request(az.parse_request(req.to_dict()))
+            hi = {"cookie": cookies[(user, cid)]} if sso and (user, cid) in cookies else None
+            out = az.process_request(az.parse_request(req.to_dict(), http_info=hi), http_info=hi)
+            if out.get("cookie"):
+                cookies[(user, cid)] = out["cookie"]
             code = out["response_args"]["code"]
             tr = tk.process_request(tk.parse_request(dict(client_id=cid, client_secret=ctx.cdb[cid]["client_secret"], redirect_uri=red,
                                                           grant_type="authorization_code", code=code)))["response_args"]
@@ -89,7 +95,7 @@ def impl(c):
 
 def model_lines(c, obs):
     lines = []
-    for user, cid in c["logins"]:
+    for user, cid, *_ in c["logins"]:
         cl = CL[cid]
         sec = "none" if cl["sector"] is None else "some:" + enc_str(cl["sector"])
         lines.append("\t".join(["sub", "pre", cl["type"] or "absent", enc_str(user), sec, enc_str(f"{cid.lower()}.example.com"), enc_str(obs["salt"])]))
@@ -98,7 +104,7 @@ def model_lines(c, obs):
 
 def compare(c, obs, outs):
     d = []
-    for (user, cid), r, o in zip(c["logins"], obs["logins"], outs):
+    for (user, cid, *_), r, o in zip(c["logins"], obs["logins"], outs):
         if r["r"] != "ok":
             d.append(f"login {user}@{cid} failed: {r}"); break
         if o == "fresh":
@@ -114,7 +120,7 @@ def compare(c, obs, outs):
 def oracle(c, obs):
     v = []
     seen = {}    # (user, client) -> list of subs
-    for (user, cid), r in zip(c["logins"], obs["logins"]):
+    for (user, cid, *_), r in zip(c["logins"], obs["logins"]):
         if r["r"] != "ok":
             continue
         vs = r["views"]
@@ -154,9 +160,9 @@ def known_key(c, v, known):
 
 
 def classify(c, obs):
-    return "seq:" + ",".join(sorted({CL[cid]["type"] or "public" for _, cid in c["logins"]}))
+    return "seq:" + ",".join(sorted({CL[l[1]]["type"] or "public" for l in c["logins"]})) + (":sso" if any(len(l) > 2 for l in c["logins"]) else "")
 
 
 def nontrivial(c, obs):
-    pairs = [tuple(x) for x in c["logins"]]
+    pairs = [tuple(x[:2]) for x in c["logins"]]
     return any((CL[cid]["type"] or "public") != "public" for _, cid in pairs) or len(set(pairs)) < len(pairs)
